@@ -136,7 +136,50 @@ def e_static(tier, shard, nshards):
         yield {"ident": i}
 
 
+def o_optimized(case):
+    """the names the parser generates, and the helpers' answers, in a python -O child (asserts compiled out)"""
+    from pv import child
+
+    F = model.tables()["F"]
+    reqs = [{"payload": p, "lm": 1, "helpers": True} for p in case["batch"]]
+    res = child.decode_in_child(reqs, optimize=True)
+    n = 0
+    for hx, r in zip(case["batch"], res):
+        ident, w = model.decode(bytes.fromhex(hx))
+        if not r["ok"]:
+            raise Fail("python-O-rejects-valid-message", f"{ident}: {r['exc']} under python -O")
+        known = {}
+        for it in w.items:
+            known[it.key if it.typ == "STR" else it.attr] = (it.key, () if it.typ == "STR" else it.idx)
+        for name, desc, idx, is_tuple, base in r["helpers"]:
+            if name in ("NSat", "NSig", "NCell"):
+                continue
+            if name not in known:
+                raise Fail("unknown-attribute-under-O", f"{ident}: under python -O the parser produced attribute {name!r}, which no field of the definition generates")
+            key, ix = known[name]
+            if desc != F[key][3]:
+                raise Fail("datadesc-wrong-under-O", f"datadesc({name!r}) = {desc!r} under python -O")
+            if ix:
+                want = list(ix) if len(ix) > 1 else ix[0]
+                if idx != want or base != key:
+                    raise Fail("att2-wrong-under-O", f"{name!r}: att2idx {idx!r} att2name {base!r} under python -O, generated from {key} {ix}")
+            n += 1
+    return Res(nontrivial=True, classes=["python-O"], evals=n)
+
+
+@st.composite
+def s_optimized(draw, ids):
+    return {"batch": [draw(gen.messages(draw(st.sampled_from(ids)), "small"))["payload"] for _ in range(10)]}
+
+
+def plan_optimized(tier, shard, nshards):
+    ids = gen.all_idents_safe()[shard::nshards]
+    return [("", s_optimized(ids), 2 if tier == "quick" else 20)] if ids else []
+
+
 def _short(c):
+    if "batch" in c:
+        return {"batch": [b[:60] for b in c["batch"][:3]], "n": len(c["batch"])}
     c = dict(c)
     if len(c.get("payload", "")) > 160:
         c["payload_len"] = len(c["payload"]) // 2
@@ -146,5 +189,6 @@ def _short(c):
 
 SUBS = [
     Sub("names_on_messages", o_msg, plan=plan_msg, rule="indexed / IDF / derived / underscore-key names, distinct by name", need={"two-levels": 1, "three-digit-index": 1, "IDF": 1, "derived-or-ext": 1, "key-with-underscore": 1}, sample=_short),
+    Sub("names_under_python_O", o_optimized, plan=plan_optimized, rule="every case: 10 messages in a python -O child", sample=_short),
     Sub("static_sweep", o_static, enum=e_static, exhaustive=True, rule="every field key of every definition x synthetic 1/2/3-digit indices at its nesting depth (complete over definitions)", need={"two-levels": 1}),
 ]
